@@ -8,7 +8,8 @@ theorems in Props/C14.v.
 
 A case = one small graph (a Workflow or a Macro `n0` with function-node children, free / foreign /
 already-owned nodes, ordered data and signal connections, values, macro value links, starting
-nodes) + ONE edit (replace_child | copy_io | copy_connections | set_run_signals_to_dag_execution)
+nodes) + ONE edit (replace_child | copy_io | copy_connections | set_run_signals_to_dag_execution | pull of a node
+whose flow derivation is refused)
 + an optional injected failure ["c"|"v"|"l", k]: the k-th single connection / value assignment /
 value-link assignment made during the edit raises InjectedFault (once).
 
@@ -20,7 +21,7 @@ value-link assignment made during the edit raises InjectedFault (once).
         [children ids, label of every node, parent of every node (-1 none, 0 the composite, 99 another
          workflow), starting node ids, ordered connection list of every channel (channel ids),
          value of every data channel ([] NOT_DATA, [1,z] int, [2,z] "s<z>"), value receiver of every
-         data channel (-1 none)]
+         data channel (-1 none), the keys the composite holds its children under (as labels)]
     extra   : [the injected fault fired, it fired while another exception was being handled]
               (not compared with the model: model_view drops it)
 
@@ -38,7 +39,8 @@ PROP = "C14"
 IMPORTS = "Base Edit"
 SHARD = 120
 RULE = ("one edit (replace_child by instance / class / setattr / label, copy_io with both fail-hard flags, "
-        "Channel.copy_connections, set_run_signals_to_dag_execution) on a Workflow or Macro of 2-4 function-node "
+        "Channel.copy_connections, set_run_signals_to_dag_execution, or a pull whose flow derivation is refused because "
+        "its data tree crosses scopes / is cyclic) on a Workflow or Macro of 2-4 function-node "
         "children of 10 kinds (typed int/str/int|str/untyped, extra / missing channels) with free, foreign and "
         "already-owned nodes, ordered data and run/ran connections (several per channel, now and then a node "
         "connected to itself), values, macro value links, IO maps, starting nodes; candidates: compatible, extra channels, missing a connected channel, "
@@ -482,7 +484,8 @@ class Universe:
                 r = ch.value_receiver
                 recv.append(-1 if r is None else self.cid.get(id(r), 999))
         assert nn == len(labels)
-        return [kids, labels, parents, start, conns, vals, recv]
+        keys = [int(k[1:]) if k[:1] == "n" and k[1:].isdigit() else 999 for k in self.comp.children.keys()]
+        return [kids, labels, parents, start, conns, vals, recv, keys]
 
     def orders(self):
         """iteration order of `{c.owner for c in upstream_connections}` for every child"""
@@ -492,8 +495,19 @@ class Universe:
             out.append([self.node_index(n) for n in {c.owner for c in ups}])
         return out
 
+    def tree_order(self, target):
+        """iteration order of the set get_nodes_in_data_tree returns for the pulled node"""
+        from pyiron_workflow.topology import get_nodes_in_data_tree
+        try:
+            return [self.node_index(n) for n in get_nodes_in_data_tree(self.nodes[target])]
+        except Exception:      # noqa: BLE001 -- cyclic data: the pull will say so itself
+            return []
+
     def apply(self, op):
         k = op[0]
+        if k == "pull":
+            self.nodes[op[1]].pull()
+            return
         if k == "replace":
             old, new, mode = op[1], op[2], op[3]
             if mode in ("cls", "setattr"):
@@ -548,7 +562,7 @@ def virgin_snapshot(case):
     vals = {c: v for c, v in case["vals"]}
     labels = [case.get("labels", {}).get(str(i), i) for i in range(len(case["nodes"]) + 1)]
     data = [c for c in range(len(st)) if st[c][2] < 2]
-    return [[], labels, [-1] * len(labels), [], [[] for _ in st], [vals.get(c, []) for c in data], [-1 for _ in data]]
+    return [[], labels, [-1] * len(labels), [], [[] for _ in st], [vals.get(c, []) for c in data], [-1 for _ in data], []]
 
 
 def run_impl(case):
@@ -559,7 +573,8 @@ def run_impl(case):
     u = Universe(case)
     virgin = virgin_snapshot(case)
     before = _fill(u.snapshot(), virgin)
-    case["_orders"] = u.orders() if case["op"][0] == "wire" else []
+    case["_orders"] = u.orders() if case["op"][0] == "wire" else u.tree_order(case["op"][1]) \
+        if case["op"][0] == "pull" else []
     with Fault(case.get("fault"), u) as f:
         try:
             u.apply(case["op"])
@@ -578,7 +593,9 @@ def run_impl(case):
 def model_view(case, obs):
     if case.get("compat") or not isinstance(obs, list) or len(obs) != 4:
         return obs
-    return [obs[0], obs[1]] if obs[0] == 11 else obs[:3]
+    if obs[0] == 11 or (obs[0] == 0 and case["op"][0] == "pull"):
+        return [obs[0], obs[1]]      # (a pull whose derivation succeeds goes on to run nodes: not modelled)
+    return obs[:3]
 
 
 # ---- the model term ------------------------------------------------------------------------------------
@@ -634,6 +651,10 @@ def op_coq(case):
         if "_orders" not in case:
             run_impl(case)
         return "(OWire " + cl(cl(cn(x) for x in o) for o in case["_orders"]) + ")"
+    if k == "pull":
+        if "_orders" not in case:
+            run_impl(case)
+        return f"(OPull {cn(op[1])} " + cl(cn(x) for x in case["_orders"]) + ")"
     raise ValueError(op)
 
 
@@ -654,13 +675,13 @@ def _norm(snap):
 
 
 def _describe_diff(case, b, a):
-    names = ["children", "labels", "parents", "starting nodes", "connections", "values", "value links"]
+    names = ["children", "labels", "parents", "starting nodes", "connections", "values", "value links", "children keys"]
     st = statics(case)
     data = [c for c in range(len(st)) if st[c][2] < 2]
     for part, (x, y) in enumerate(zip(_norm(b), _norm(a))):
         if x == y:
             continue
-        if part in (0, 3):
+        if part in (0, 3, 7):
             return f"{names[part]} {x} -> {y}"
         for i, (p, q) in enumerate(zip(x, y)):
             if p != q:
@@ -701,8 +722,10 @@ def oracle(case, obs):
     # ---- a successful replacement inherits the old node's place -------------------------------------
     st = statics(case)
     old, new = op[1], op[2]
-    kb, lb, pb, sb, cb_, vb, rb = b
-    ka, la, pa, sa, ca, va, ra = a
+    kb, lb, pb, sb, cb_, vb, rb, keyb = b
+    ka, la, pa, sa, ca, va, ra, keya = a
+    if sorted(keya) != sorted(la[k] for k in ka):
+        return f"children-keys: the children are held under {keya} but are labelled {[la[k] for k in ka]}"
     if la[new] != lb[old]:
         return f"inherit-label: the replacement is labelled {la[new]}, the old node was {lb[old]}"
     if pa[new] != 0 or new not in ka:
@@ -891,13 +914,41 @@ def cause_receiver_undo(case):
     return False
 
 
+def _data_tree(case, target):
+    """the nodes upstream of [target] through data connections (target included), from the case alone"""
+    st, cons = _graph(case)
+    seen, todo = [], [target]
+    while todo:
+        n = todo.pop()
+        if n in seen:
+            continue
+        seen.append(n)
+        for c in range(len(st)):
+            if st[c][0] == n and st[c][2] == 0:
+                todo.extend(st[p][0] for p in cons[c])
+    return seen
+
+
+def _data_tree_strict(case, n):
+    """the nodes strictly upstream of [n]"""
+    st, cons = _graph(case)
+    out = []
+    for c in range(len(st)):
+        if st[c][0] == n and st[c][2] == 0:
+            for p in cons[c]:
+                out.extend(_data_tree(case, st[p][0]))
+    return out
+
+
 def cause_wire_multi(case):
     """flow derivation: a run / accumulate_and_run / ran channel of a child, or one of their partners, has
     >= 2 connections (re-connecting prepends, so the restored lists come back in another order)"""
-    if case["op"][0] != "wire":
+    if case["op"][0] not in ("wire", "pull"):
         return False
     st, cons = _graph(case)
     kids = [i for i, (_k, role) in enumerate(case["nodes"], start=1) if role == "child"]
+    if case["op"][0] == "pull":
+        kids = _data_tree(case, case["op"][1])
     for c in range(len(st)):
         if st[c][0] in kids and st[c][2] >= 2 and st[c][1] in (LIDX["run"], LIDX["accumulate_and_run"], LIDX["ran"]):
             if len(cons[c]) >= 2 or any(len(cons[p]) >= 2 for p in cons[c]):
@@ -927,7 +978,7 @@ def known(case, obs, verdict):
             return "S13-replace-link-reforge-after-swap"
         if op[0] == "wire" and code == 10 and fault == "c":
             return "C14-wire-fault-keeps-new-connections"
-        if op[0] == "wire" and cause_wire_multi(case):
+        if op[0] in ("wire", "pull") and cause_wire_multi(case):
             return "C14-wire-restore-reorders"
         return None
     return None
@@ -1283,6 +1334,64 @@ def gen_wire(rng, fault="rand"):
     return case
 
 
+def gen_pull(rng, fault="rand"):
+    """a pull whose flow derivation is refused: the data tree above the pulled node crosses scopes (a child fed by
+    a parentless / foreign-owned node, or the other way round), or it is cyclic"""
+    comp = rng.choice(["wf", "wf", "mac"])
+    case = {"comp": comp, "nodes": [], "edges": [], "start": [], "vals": [], "op": None, "fault": None}
+    if comp == "mac":
+        case["mcls"] = 3
+    nchild = rng.choice([2, 3, 3])
+    case["nodes"] = [[rng.choice([0, 0, 7, 8]), "child"] for _ in range(nchild)]
+    for _ in range(rng.choice([1, 1, 2])):
+        case["nodes"].append([rng.choice([0, 0, 8]), rng.choice(["free", "free", "free", "owned"])])
+    nn = len(case["nodes"])
+    if rng.random() < 0.3:
+        case["labels"] = {str(rng.randrange(nchild + 1, nn + 1)): rng.randrange(1, nchild + 1)}   # an outsider named like a child
+    st = statics(case)
+    if comp == "mac":
+        case["links_in"] = [rng.choice(_chans(case, 1, 0))]
+        case["links_out"] = [rng.choice([c for i in range(1, nchild + 1) for c in _chans(case, i, 1)])]
+    have = set()
+
+    def add(a, b):
+        if a is None or b is None or (a, b) in have or not conn_ok(st, a, b):
+            return
+        have.add((a, b))
+        case["edges"].append([a, b])
+    shape = rng.choice(["cross", "cross", "cross", "cycle"])
+    order = list(range(1, nn + 1))
+    rng.shuffle(order)                     # a DAG in a random numbering: children and outsiders interleaved
+    for _ in range(rng.choice([2, 3, 4, 5])):
+        i, j = sorted(rng.sample(range(nn), 2))
+        add(rng.choice(_chans(case, order[j], 0)), rng.choice(_chans(case, order[i], 1)))
+    target = order[-1] if rng.random() < 0.7 else rng.choice(order)
+    if shape == "cycle":
+        i, j = rng.sample(range(1, nn + 1), 2)
+        add(rng.choice(_chans(case, i, 0)), rng.choice(_chans(case, j, 1)))
+        add(rng.choice(_chans(case, j, 0)), rng.choice(_chans(case, i, 1)))
+        add(rng.choice(_chans(case, target, 0)), rng.choice(_chans(case, i, 1)))
+    # hand-made run / ran wiring on the tree, single or several per channel
+    for _ in range(rng.choice([0, 1, 1, 2, 3, 4])):
+        i, j = rng.sample(range(1, nn + 1), 2)
+        add(_sig(case, i, rng.choice(["run", "run", "accumulate_and_run"])), _sig(case, j, "ran"))
+    case["start"] = sorted(rng.sample(range(1, nchild + 1), rng.choice([0, 1])))
+    # only refused derivations: the tree is cyclic, or its nodes do not all have the same parent
+    tree = _data_tree(case, target)
+    roles = {("comp" if case["nodes"][n - 1][1] == "child" else case["nodes"][n - 1][1]) for n in tree}
+    cyclic = any(n in _data_tree_strict(case, n) for n in tree)
+    if not cyclic and len(roles) < 2:
+        return None
+    _fill_vals(rng, case, p_data=0.5)
+    case["op"] = ["pull", target]
+    if fault == "rand":
+        n_c, _n_v, _n_l = _transfers(case)
+        case["fault"] = None if rng.random() < 0.7 else ["c", rng.randrange(1, n_c)]
+    else:
+        case["fault"] = fault
+    return case
+
+
 def _with_faults(case, kinds=("c", "v", "l")):
     """the case under every single injected failure: one copy per (kind, k) up to the transfer bound"""
     n_c, n_v, n_l = _transfers(case)
@@ -1310,7 +1419,7 @@ def generate(ctx):
         seen.add(k)
         cases.append(c)
         return True
-    n_rep, n_copy, n_wire = ctx.n(520, 5000), ctx.n(260, 2500), ctx.n(220, 2000)
+    n_rep, n_copy, n_wire, n_pull = ctx.n(500, 5000), ctx.n(250, 2500), ctx.n(200, 2000), ctx.n(120, 1200)
     n = 0
     while n < n_rep:
         n += push(gen_replace(rng))
@@ -1341,6 +1450,9 @@ def generate(ctx):
         if base is not None:
             for c2 in _with_faults(base, kinds=("c",)):
                 push(c2)
+    n = 0
+    while n < n_pull:
+        n += push(gen_pull(rng))
     return cases
 
 
